@@ -51,7 +51,7 @@ Qed.
 
 (* ---- the English branch of the Entering handler ---- *)
 Section Modes.
-Context {D SY : Type} (dops : dict_ops D) (sops : syl_ops SY) (conv : conv_fn).
+Context {D SY : Type} (dops : dict_ops D) (sops : syl_ops SY) (conv : conv_fn D).
 Implicit Types s : shared D SY.
 
 (* the 48 key codes that carry a printable character (N1 .. Space) *)
